@@ -60,11 +60,14 @@ ION_STRINGS = [
 def generate(run_seed, prop, tier="quick"):
     rng = rng_for("sampler-scenario", run_seed)
     all_atom = True if prop == "C09" else None
-    n_cfg = rng.choice([1, 1, 2])
+    # a host program that discards its samplers before it builds the next one (their tables are freed, and CPython
+    # hands the memory - and the id() - to whatever is built next); such hosts mostly run one chemistry with several tables
+    release = rng_for("sampler-release", run_seed).random() < 0.35
+    n_cfg = 2 if release and rng.random() < 0.6 else rng.choice([1, 1, 2])
     configs = [gen_sampler.gen_config(rng, all_atom=all_atom, tier=tier)]
     if n_cfg == 2:
         # a second configuration: unrelated, or the same fragments with other tables (second user of one chemistry)
-        configs.append(gen_sampler.vary_tables(rng, configs[0]) if rng.random() < 0.5
+        configs.append(gen_sampler.vary_tables(rng, configs[0]) if rng.random() < (0.85 if release else 0.5)
                        else gen_sampler.gen_config(rng, all_atom=all_atom, tier=tier))
     mode = "owned" if rng.random() < 0.6 else "seed"
     entropy = {"key": rng.randrange(2 ** 40), "steer": rng.choice([0.0, 0.15, 0.4, 0.8]) if mode == "owned" else 0.0,
@@ -112,9 +115,7 @@ def generate(run_seed, prop, tier="quick"):
     ctor = ctor_choice
     scenario = {"family": "sampler", "prop": prop, "run_seed": run_seed, "configs": configs, "mode": mode, "ctor": ctor, "debug_logging": env_debug_logging(run_seed),
                 "entropy": entropy, "ops": ops, "faults_enabled": sorted(k for k, v in faults.items() if v)}
-    # a host program that discards its samplers before it builds the next one (their tables are freed, and CPython
-    # hands the memory - and the id() - to whatever is built next); drawn from its own stream
-    scenario["release"] = rng_for("sampler-release", run_seed).random() < 0.35
+    scenario["release"] = release
     if prop == "C09":
         scenario["resolver_items"] = [gen_mol.build_item(rng, kind="atomistic", weights=rng.random() < 0.5,
                                                          hyper=rng.choice([(), ("S", "P", "N"), ("S", "P", "N", "exotic")]),
@@ -679,6 +680,7 @@ def run_history(scenario, only=None):
             continue
         event = {"seq": seq, "op": op["op"]}
         inj = None
+        sampler = mol = None        # nothing of the previous op stays alive in this frame (see "release")
         try:
             kind = op["op"]
             if kind in ("cs", "cs_none"):
